@@ -37,7 +37,16 @@ THEOREMS = [
 ASSUMPTIONS = [
     'values are BareScript values: null, booleans, int/float numbers (any magnitude, non-finite included), strings, date/datetime, '
     'arrays, STRING-keyed objects, functions, regexes. A host-supplied dict with non-string keys (e.g. {1: 2, "x": 3}) is outside the '
-    'domain: sorted(items)/json sort_keys raise TypeError on it in == and string concatenation (value.py:215, json encoder)',
+    'domain: sorted(items)/json sort_keys raise TypeError on it in == and string concatenation (value.py:215, json encoder). Host values of '
+    'OTHER types (decimal.Decimal, Fraction, complex, tuple, set, bytes, enum members, subclasses of the builtin types, opaque objects - '
+    'value.py reads them as type "unknown") are not values of the Lean model either, but they are inside the property ("with any globals"): '
+    'stream host-values checks on the implementation that no operator, statement site or library call lets a host exception escape on them '
+    'and that every operator result is a BareScript value',
+    'host functions that re-enter the runtime (execute_script / evaluate_expression / a script function, with the options they were handed, '
+    'a copy, a fresh dict, None) are inside the property (a host function is a global): the machine of the Lean model has no such '
+    'transition; stream host-reentry checks them on the implementation. Not generated: a loop of the outer script that re-enters with the '
+    'SAME options on every iteration under a small maxStatements (the nested execute_script resets the shared statement counter, '
+    'runtime.py:43 - a matter of the statement limit, not of containment)',
     'CPython/libm are modelled, not verified (BareModel/HostPy.lean, structure Libm): rounding to binary64, libm pow on a positive '
     'base, timedelta rounding, astimezone() range behaviour, float repr; every theorem holds for ALL such behaviours (Libm is a '
     'parameter); the driver instance HostPy.ieee (correctly rounded binary64, zone UTC) is sampled against CPython by stream binop-host',
@@ -102,7 +111,16 @@ LEVEL_TEXT = ('Theorems (Lean 4, for ALL operands, heaps incl. cyclic ones, recu
               'configuration x kind of logFn x re-use of the options: contained, null, identical to the twin that returns null / fails '
               'with a plain ValueError, one failure line iff debug and logFn; statement-level outcomes also against HostPy.wrapCall) and '
               'host-fetch (what a fetchFn answers: empty / blank / BOM / comment-only / broken text, str subclass, None, raising, wrong '
-              'signature, at every position of an include and under systemFetch, histories on shared options).')
+              'signature, at every position of an include and under systemFetch, histories on shared options), '
+              'host-values (54 host values a script cannot create or that are BareScript values by subclassing x every operator / partner / '
+              'access path / statement site / library function: nothing escapes, every operator result is a BareScript value), '
+              'host-reentry (host functions calling back into execute_script / evaluate_expression / script functions with the same, copied, '
+              'fresh or no options, 0-1000 further statements of every kind after the call, 1-9 levels, 1-3 runs: the outer run carries on as '
+              'with the twin that answers the same value without re-entering), script-shapes (every combination of the optional members of the '
+              'script model the parser produces - `function f(...):`, 0-256 parameters / arguments, empty bodies, bare return / jump, empty '
+              'files - executed, never called or called: nothing escapes, nothing is reported that did not fail) and layered-errors (20 failing '
+              'statements under every stack of includes 0-65 deep, functions, callbacks, blocks, re-entering host functions: a documented '
+              'exception arrives as a documented exception, a contained failure stays contained).')
 LEVEL_NOTE = ('Trusted: Lean kernel; correspondence harness (pools, reference reading of the block and of the wrapper). Modelled not '
               'verified: CPython int/float arithmetic, libm pow, datetime/timedelta, json encoder failure modes, str(int) digit '
               'limit (all parameters or explicit cases of BareModel/HostPy.lean, sampled by stream binop-host). Library function '
@@ -285,6 +303,8 @@ def build(spec, mods):
         return re.compile(spec[1])
     if k == 'pyfn':
         return make_pyfn(spec[1], mods)
+    if k == 'hv':
+        return hv_build(spec[1])
     raise ValueError(spec)
 
 
@@ -644,6 +664,9 @@ ARG_POOL = [
     DT('naive', (2020, 1, 1)), DT('naive', (9999, 12, 31, 23, 59, 59)), DT('date', (2020, 6, 15)), DT('aware', (9999, 12, 31, 23), -300),
     ['fn', 'arrayNew'], ['fn', 'systemLog'], ['pyfn', 'raise_rt'], ['pyfn', 'raise_key'], ['pyfn', 'ident'], ['pyfn', 'bad_inner'],
     ['regex', 'a+'], ['nest', 1500],
+    # host values a script cannot create (stream host-values): as ARGUMENTS they are wrong-typed for every typed parameter
+    ['hv', ['Decimal', '19.99']], ['hv', ['Fraction', [1, 3]]], ['hv', ['complex', ['3', '4']]], ['hv', ['tuple', [1, 2]]], ['hv', ['bytes', 'ab']],
+    ['hv', ['hostile', None]], ['hv', ['intenum', 'RED']],
 ]
 SIZE_ARGS = {'arrayNewSize': [0], 'mathRound': [1], 'numberToFixed': [1], 'stringRepeat': [1], 'jsonStringify': [1]}
 NONDET = {'datetimeNow', 'datetimeToday', 'mathRandom'}
@@ -2712,6 +2735,993 @@ def stream_host_fetch(ctx, mods, n_random, name='host-fetch'):
                              'not counted as a violation until listed')
 
 
+# =====================================================================================================================
+# Round 9: four implementation-only oracle streams.  What they feed the runtime cannot be sent to the Lean model (host
+# objects, host functions that call back into the runtime, layered scripts with file tables): the oracle is the property
+# statement itself, read on the implementation - nothing but BareScriptRuntimeError / BareScriptParserError comes out of
+# execute_script / evaluate_expression, a contained failure does not stop the run, nothing is reported that did not fail.
+# Shared scale axis of the streams below (geometric, with the neighbours of the usual thresholds):
+# =====================================================================================================================
+
+SIZES = [0, 1, 2, 9, 10, 11, 16, 17, 64, 65, 100, 101, 128, 129, 256, 1000]
+REGEX_T = type(re.compile(''))
+
+
+def is_bare(v, path=()):
+    """is v a BareScript value (doc: null, boolean, number, string, datetime, array, string-keyed object, function, regex)"""
+    if v is None or isinstance(v, (bool, int, float, str, datetime.date, REGEX_T)) or callable(v):
+        return True
+    if isinstance(v, (list, dict)):
+        if id(v) in path:
+            return True
+        path = path + (id(v),)
+        if isinstance(v, list):
+            return all(is_bare(x, path) for x in v)
+        return all(isinstance(k, str) and is_bare(x, path) for k, x in v.items())
+    return False
+
+
+def safe_repr(v):
+    try:
+        return repr(v)[:120]
+    except Exception:  # pylint: disable=broad-except
+        return '<' + type(v).__name__ + '>'
+
+
+def run_model(mods, model, options, expr=False, locals_=None, builtins=True):
+    if expr:
+        return guarded(mods, lambda: mods['runtime'].evaluate_expression(model, options, locals_, builtins))
+    return guarded(mods, lambda: mods['runtime'].execute_script(model, options))
+
+
+# ---------------------------------------------------------------------------------------------------------------------
+# stream host-values: "with ANY globals".  A host hands the script what it has: decimal.Decimal prices of a database row,
+# Fractions, complex samples, tuples / sets / bytes, enum members, subclasses of the builtin types, opaque objects - as a
+# global, inside a host-provided array / object, as the answer of a host function, as a local of evaluate_expression.
+# value.py gives every such value a defined reading ('<unknown>', type name 'unknown', true); the operator block must
+# treat it as an invalid operand (null), never hand it to a Python operator.
+# ---------------------------------------------------------------------------------------------------------------------
+
+class HvOpaque:                                # pylint: disable=too-few-public-methods
+    """a plain host object"""
+
+
+class HvNumberLike:                            # pylint: disable=too-few-public-methods
+    """registered with the numbers.Number ABC, supports no operator at all"""
+
+
+class HvHostile:
+    """every special method a Python operator, bool(), len(), iter(), str(), repr(), float() ... would call raises"""
+
+    def _boom(self, *args, **kwargs):
+        raise RuntimeError('hostile host value')
+    __add__ = __radd__ = __sub__ = __rsub__ = __mul__ = __rmul__ = __truediv__ = __rtruediv__ = __mod__ = __rmod__ = _boom
+    __pow__ = __rpow__ = __neg__ = __pos__ = __abs__ = __bool__ = __len__ = __iter__ = __getitem__ = __contains__ = _boom
+    __eq__ = __ne__ = __lt__ = __le__ = __gt__ = __ge__ = __float__ = __int__ = __index__ = __str__ = __repr__ = __format__ = _boom
+    __hash__ = None
+
+
+def hv_classes():
+    import enum                                 # pylint: disable=import-outside-toplevel
+    import numbers                              # pylint: disable=import-outside-toplevel
+    if 'done' not in _HV_CLASSES:
+        numbers.Number.register(HvNumberLike)
+        _HV_CLASSES['IntEnum'] = enum.IntEnum('HvColor', {'ZERO': 0, 'RED': 1, 'BIG': 2 ** 70})
+        _HV_CLASSES['IntFlag'] = enum.IntFlag('HvPerm', {'R': 1, 'W': 2})
+        _HV_CLASSES['floatsub'] = type('HvFloat', (float,), {})
+        _HV_CLASSES['intsub'] = type('HvInt', (int,), {})
+        _HV_CLASSES['strsub'] = type('HvStr', (str,), {})
+        _HV_CLASSES['listsub'] = type('HvList', (list,), {})
+        _HV_CLASSES['dictsub'] = type('HvDict', (dict,), {})
+        _HV_CLASSES['done'] = True
+    return _HV_CLASSES
+
+
+_HV_CLASSES = {}
+
+# [kind, argument] - JSON-able.  The reading each value has to get is computed by hv_ref_kind (written from the type table
+# of the documentation, not from value.py).
+HV_SPECS = [
+    ['Decimal', '19.99'], ['Decimal', '0'], ['Decimal', '-1.5'], ['Decimal', 'NaN'], ['Decimal', 'sNaN'], ['Decimal', 'Infinity'], ['Decimal', '1E+400'],
+    ['Fraction', [1, 3]], ['Fraction', [0, 1]], ['Fraction', [10 ** 30, 7]],
+    ['complex', ['3', '4']], ['complex', ['0', '0']], ['complex', ['nan', 'inf']],
+    ['tuple', []], ['tuple', [1, 2]], ['tuplenan', None], ['set', [1, 2]], ['frozenset', []], ['bytes', 'ab'], ['bytearray', 'ab'], ['range', 3], ['memoryview', 'ab'],
+    ['timedelta', 5], ['time', [1, 2, 3]], ['object', None], ['Ellipsis', None], ['NotImplemented', None], ['opaque', None], ['numberlike', None],
+    ['hostile', None], ['uuid', None], ['module', None], ['generator', None], ['deque', [1]], ['array', [1.5]],
+    # host values that ARE BareScript values by the isinstance reading: subclasses of the builtin types, enum members
+    ['intenum', 'RED'], ['intenum', 'ZERO'], ['intenum', 'BIG'], ['intflag', 3], ['floatsub', '2.5'], ['floatsub', 'nan'], ['intsub', 7], ['intsub', 10 ** 400],
+    ['strsub', 'ab'], ['strsub', ''], ['listsub', [1, 2]], ['dictsub', None], ['ordered', None], ['defaultdict', None], ['counter', None],
+    ['class', 'Decimal'], ['class', 'object'], ['class', 'hostile'],
+]
+HV_UNKNOWN = [s for s in HV_SPECS if s[0] not in ('intenum', 'intflag', 'floatsub', 'intsub', 'strsub', 'listsub', 'dictsub', 'ordered', 'defaultdict',
+                                                  'counter', 'class')]
+
+
+def hv_build(spec):
+    """spec -> a FRESH host value"""
+    import array                                # pylint: disable=import-outside-toplevel
+    import collections                          # pylint: disable=import-outside-toplevel
+    import decimal                              # pylint: disable=import-outside-toplevel
+    import uuid                                 # pylint: disable=import-outside-toplevel
+    k, a = spec
+    cls = hv_classes()
+    if k == 'Decimal':
+        return decimal.Decimal(a)
+    if k == 'Fraction':
+        return Fraction(a[0], a[1])
+    if k == 'complex':
+        return complex(float(a[0]), float(a[1]))
+    if k == 'tuple':
+        return tuple(a)
+    if k == 'tuplenan':
+        return (float('nan'), (1, 'x'))
+    if k == 'set':
+        return set(a)
+    if k == 'frozenset':
+        return frozenset(a)
+    if k == 'bytes':
+        return a.encode()
+    if k == 'bytearray':
+        return bytearray(a.encode())
+    if k == 'range':
+        return range(a)
+    if k == 'memoryview':
+        return memoryview(a.encode())
+    if k == 'timedelta':
+        return datetime.timedelta(days=a)
+    if k == 'time':
+        return datetime.time(*a)
+    if k == 'object':
+        return object()
+    if k == 'Ellipsis':
+        return Ellipsis
+    if k == 'NotImplemented':
+        return NotImplemented
+    if k == 'opaque':
+        return HvOpaque()
+    if k == 'numberlike':
+        return HvNumberLike()
+    if k == 'hostile':
+        return HvHostile()
+    if k == 'uuid':
+        return uuid.UUID('12345678-1234-5678-1234-567812345678')
+    if k == 'module':
+        return json
+    if k == 'generator':
+        return (x for x in (1, 2))
+    if k == 'deque':
+        return collections.deque(a)
+    if k == 'array':
+        return array.array('d', a)
+    if k == 'intenum':
+        return cls['IntEnum'][a]
+    if k == 'intflag':
+        return cls['IntFlag'](a)
+    if k in ('floatsub', 'intsub', 'strsub', 'listsub'):
+        return cls[k](float(a) if k == 'floatsub' else a)
+    if k == 'dictsub':
+        return cls['dictsub'](a=1)
+    if k == 'ordered':
+        return collections.OrderedDict([('b', 1), ('a', 2)])
+    if k == 'defaultdict':
+        return collections.defaultdict(list, a=1)
+    if k == 'counter':
+        return collections.Counter('aab')
+    if k == 'class':
+        return {'Decimal': decimal.Decimal, 'object': object, 'hostile': HvHostile}[a]
+    raise ValueError(spec)
+
+
+def hv_ref_kind(v):
+    """the documented type of a value (doc/library: systemType) - 'unknown' for everything a script cannot create"""
+    if v is None:
+        return 'null'
+    for types, name in ((str, 'string'), (bool, 'boolean'), ((int, float), 'number'), (datetime.date, 'datetime'), (dict, 'object'), (list, 'array')):
+        if isinstance(v, types):
+            return name
+    return 'function' if callable(v) else 'regex' if isinstance(v, REGEX_T) else 'unknown'
+
+
+HV_ACCESS = {'global': 'hv', 'element': 'arrayGet(harr, 0)', 'member': "objectGet(hobj, 'k')", 'hostret': 'hostGet()',
+             'nested': "arrayGet(objectGet(arrayGet(hdeep, 0), 'k'), 0)", 'local': 'xx'}
+HV_PARTNERS = {'1': 'number', '0.5': 'number', '0': 'number', '2': 'number', "'s'": 'string', "''": 'string', 'null': 'null', 'true': 'boolean',
+               'pint': 'number', 'pbig': 'number', 'pdt': 'datetime', 'parr': 'array', 'pobj': 'object', 'hw': None, '@V@': None}
+HV_ARITH = ['+', '-', '*', '/', '%', '**']
+HV_CMP = ['==', '!=', '<', '<=', '>', '>=']
+HV_LOGIC = ['&&', '||']
+HV_OTHER_FORMS = {'neg': '-@V@', 'negneg': '-(-@V@)', 'not': '!@V@', 'ifcond': 'if(@V@, 1, 2)', 'ifbranch': 'if(true, @V@ + 1, 2)', 'callit': '@V@(1)' ,
+                  'chain': '1 + @V@ * 2 - @P@', 'cat': "'' + arrayNew(@V@)", 'catobj': "objectNew('k', @V@) + ''", 'cmparr': 'arrayNew(@V@) == arrayNew(@V@)',
+                  'cmpobj': "objectNew('k', @V@) < objectNew('k', @P@)", 'sort': 'arraySort(arrayNew(@V@, 1, @V@, @P@))', 'group': '(@V@) + (@P@)'}
+HV_SITES = {
+    'assign': 'rr = @E@', 'return': 'return @E@', 'exprstmt': '(@E@)', 'if': 'if @E@:\n    rr = 1\nelse:\n    rr = 2\nendif',
+    'elif': 'if false:\n    rr = 1\nelif @E@:\n    rr = 2\nendif', 'while': 'while @E@:\n    rr = 1\n    break\nendwhile',
+    'jumpif': 'jumpif (@E@) labH\nrr = 1\nlabH:', 'for': 'for vv in @E@:\n    rr = vv\nendfor', 'forbody': 'for vv in arrayNew(1, 2):\n    rr = @E@\nendfor',
+    'arg': 'rr = systemType(@E@)', 'infn': 'function sf(xx):\n    return @E@\nendfunction\nrr = sf(hv)', 'include': "include 'hvlib.bare'",
+}
+HV_GKINDS = ['dict', 'dict', 'dict', 'ordered', 'defaultdict']
+
+
+def hv_expr(case):
+    """the expression text of a case"""
+    acc = HV_ACCESS[case['access']]
+    form = case['form']
+    if form in ('l', 'r'):
+        tmpl = '@V@ ' + case['op'] + ' @P@' if form == 'l' else '@P@ ' + case['op'] + ' @V@'
+    elif form == 'lib':
+        tmpl = case['op'] + '(@V@)' if case.get('argpos', 0) == 0 else case['op'] + '(@P@, @V@)'
+    elif form == 'callit':                      # a host value in CALL position (the name of a variable)
+        return ('xx' if case['access'] == 'local' else 'hv') + '(1)'
+    else:
+        tmpl = HV_OTHER_FORMS[form]
+    return tmpl.replace('@P@', case.get('partner', '1')).replace('@V@', acc)
+
+
+def hv_check(case, hv, hw):
+    """what the value of the expression has to be, from the documented operator table: 'null' | 'bool' | 'bare' | None"""
+    form, op = case['form'], case.get('op')
+    kv = hv_ref_kind(hv)
+    kp = HV_PARTNERS.get(case.get('partner', '1'))
+    if case.get('partner') == 'hw':
+        kp = hv_ref_kind(hw)
+    elif case.get('partner') == '@V@':
+        kp = kv
+    if form in ('l', 'r'):
+        if op in HV_LOGIC:
+            return None                         # the operand itself may be the value
+        if op in HV_CMP:
+            return 'bool'
+        if 'unknown' in (kv, kp) and not (op == '+' and 'string' in (kv, kp)):
+            return 'null'
+        return 'bare'
+    if form == 'neg':
+        return 'null' if kv != 'number' else 'bare'
+    if form == 'negneg':
+        return 'null' if kv != 'number' else 'bare'
+    if form in ('not', 'cmparr', 'cmpobj'):
+        return 'bool'
+    if form in ('chain', 'group', 'ifbranch'):
+        return 'null' if kv == 'unknown' and not (form == 'group' and kp == 'string') else 'bare'
+    if form in ('cat', 'catobj'):
+        return 'bare'
+    return None
+
+
+def hv_globals(mods, case):
+    import collections                          # pylint: disable=import-outside-toplevel
+    hv, hw = hv_build(case['hv']), hv_build(case.get('hw') or ['object', None])
+    g = {'hv': hv, 'hw': hw, 'harr': [hv, 1], 'hobj': {'k': hv}, 'hdeep': [{'k': [hv]}], 'hostGet': lambda args, options: hv, 'pint': 3, 'pbig': 10 ** 400,
+         'pdt': datetime.datetime(2020, 1, 1), 'parr': [1], 'pobj': {'a': 1}}
+    gkind = case.get('gkind', 'dict')
+    if gkind == 'ordered':
+        g = collections.OrderedDict(g)
+    elif gkind == 'defaultdict':
+        g = collections.defaultdict(lambda: None, g)
+    return g, hv, hw
+
+
+def hostval_failures(mods, case):
+    """the oracles of one host-value case -> [(oracle, expected, actual)]"""
+    expr = hv_expr(case)
+    g, hv, hw = hv_globals(mods, case)
+    cfg = case['config']
+    log = []
+    site = case.get('site', 'return')
+    want = hv_check(case, hv, hw)
+    if case.get('api') == 'expr':
+        locals_ = None
+        if case['access'] == 'local':
+            locals_ = {'xx': hv}
+        for name, fn in mods['library'].SCRIPT_FUNCTIONS.items():
+            g.setdefault(name, fn)
+        options = make_options(cfg, log, g, maxStatements=2000)
+        out = run_model(mods, parsed(mods, expr, True), options, True, locals_, bool(case.get('builtins', True)))
+        has_value = out[0] == 'ok'
+        value = out[1] if has_value else None
+    else:
+        files = {'hvlib.bare': 'rr = ' + expr + '\n'}
+        body = HV_SITES[site].replace('@E@', expr)
+        text = body if site == 'return' else "systemLog('before')\n" + body + "\nsystemLog('END')\nreturn 'done'\n"
+        options = make_options(cfg, log, g, files=files, maxStatements=2000)
+        out = run_model(mods, parsed(mods, text), options)
+        has_value = out[0] == 'ok' and site in ('return', 'assign', 'infn', 'include')
+        value = (out[1] if site == 'return' else g.get('rr')) if has_value else None
+    if out[0] == 'escape':
+        return [('host-value-escape', 'a value or BareScriptRuntimeError (an operation on a host value is an invalid operation: null)', list(out))]
+    bad = []
+    if out[0] != 'ok':
+        bad.append(('host-value-runtime-error', 'no exception: an operation on a host value is null, a failing call is contained', list(out)[:2]))
+    elif case.get('api') != 'expr' and site != 'return' and (out[1] != 'done' or (cfg['logFn'] and log[-1:] != ['END'])):
+        bad.append(('execution-continues', ['done', 'END'], [safe_repr(out[1]), log[-2:]]))
+    # (the statement asks for "a BareScript value", not for a particular one: that `price + 1` is null rather than a float is
+    #  not a matter of containment - `want` only says where the result is COMPUTED rather than handed through)
+    if has_value and want is not None and not is_bare(value):
+        bad.append(('host-value-result', 'a BareScript value' + (' (null: invalid operation values)' if want == 'null' else ''), safe_repr(value)))
+    return bad
+
+
+def hv_cases(ctx, rng, n_random, lib_names):
+    cases = []
+    cfgs = [REF_ON, REF_OFF] + EXTRA_CONFIGS
+
+    def add(**kw):
+        kw.setdefault('config', cfgs[len(cases) % len(cfgs)])
+        cases.append(dict({'kind': 'hostval'}, **kw))
+    # every host value x every operator x both sides against a number literal, at top level of a script and of an expression
+    for hv in HV_SPECS:
+        for op in HV_ARITH + HV_CMP + HV_LOGIC:
+            for form in ('l', 'r'):
+                add(hv=hv, access='global', form=form, op=op, partner='1', site='return')
+                add(hv=hv, access='global', form=form, op=op, partner='2', api='expr', builtins=bool(len(cases) % 2))
+        for form in HV_OTHER_FORMS:
+            add(hv=hv, access='global', form=form, partner='1', site='assign')
+            add(hv=hv, access='global', form=form, partner="'s'", api='expr')
+        for site in HV_SITES:
+            add(hv=hv, access='local' if site == 'infn' else 'global', form='l', op='+', partner='1', site=site)
+            add(hv=hv, access='local' if site == 'infn' else 'global', form='not' if site in ('if', 'while') else 'neg', site=site)
+        for access in HV_ACCESS:
+            if access != 'local':
+                add(hv=hv, access=access, form='l', op='*', partner='0.5', site='assign')
+        add(hv=hv, access='local', form='r', op='-', partner='1', api='expr')
+        for partner in HV_PARTNERS:             # every kind of partner: int / 400-digit int / datetime / string / container / a second host value / itself
+            for op in ('+', '-', '**', '==', '<'):
+                add(hv=hv, hw=HV_SPECS[(len(cases) * 7) % len(HV_SPECS)], access='global', form='l' if len(cases) % 2 else 'r', op=op, partner=partner, site='assign')
+    # every library function with a host value as its first / second argument
+    pool = HV_SPECS if not ctx.quick else None
+    for name in lib_names:
+        if name in NONDET or name in ('systemFetch',):
+            continue
+        if name in SIZE_ARGS:                   # a number-like host value as a size / digits argument: time and memory are outside the model
+            pool = HV_UNKNOWN if not ctx.quick else None
+        for hv in (pool or [rng.choice(HV_UNKNOWN if name in SIZE_ARGS else HV_SPECS), rng.choice(HV_UNKNOWN)]):
+            add(hv=hv, access=rng.choice(['global', 'element', 'hostret']), form='lib', op=name, site='assign', argpos=0)
+            add(hv=hv, access='global', form='lib', op=name, site='assign', argpos=1, partner=rng.choice(['parr', "'s'", '1', 'pobj', 'pdt']))
+    # random combinations: value x partner (also a second host value, the same value) x operator x access path x site x configuration x kind of globals
+    for _ in range(n_random):
+        form = rng.choice(['l', 'l', 'r', 'r'] + list(HV_OTHER_FORMS))
+        site = rng.choice(list(HV_SITES))
+        api = 'expr' if rng.random() < 0.3 else 'script'
+        access = rng.choice([a for a in HV_ACCESS if a != 'local'])
+        if api == 'script' and site == 'infn':
+            access = 'local'
+        elif api == 'expr' and rng.random() < 0.3:
+            access = 'local'
+        kw = {'hv': rng.choice(HV_SPECS if rng.random() < 0.3 else HV_UNKNOWN), 'hw': rng.choice(HV_SPECS), 'access': access, 'form': form,
+              'op': rng.choice(HV_ARITH + HV_ARITH + HV_CMP + HV_LOGIC), 'partner': rng.choice(list(HV_PARTNERS)), 'config': rng.choice(cfgs),
+              'gkind': rng.choice(HV_GKINDS)}
+        if api == 'expr':
+            kw.update(api='expr', builtins=rng.random() < 0.5)
+        else:
+            kw['site'] = site
+        add(**kw)
+    return cases
+
+
+def stream_host_values(ctx, mods, n_random, name='host-values'):
+    st = ctx.stream(name, f'"with any globals": {len(HV_SPECS)} host values a script cannot create (decimal.Decimal incl. NaN / sNaN / Infinity / 1E+400, Fraction, '
+                          'complex, tuple, set, bytes, bytearray, range, memoryview, timedelta, time, object(), Ellipsis, NotImplemented, a class registered with '
+                          'numbers.Number, an object whose every special method raises, UUID, module, generator, deque, array.array) and host values that are BareScript '
+                          'values by subclassing (IntEnum / IntFlag members, float / int / str / list / dict subclasses, OrderedDict, defaultdict, Counter, classes) - '
+                          'as a global, an element of a host array, a member of a host object, nested in both, the answer of a host function, a local of a script '
+                          'function / of evaluate_expression x every binary operator on both sides (partner: number / string / null / boolean literals, int, 400-digit '
+                          f'int, datetime, array, object, a second host value, the same value), unary - and !, if(), calls, chains, containers x {len(HV_SITES)} '
+                          'statement sites (assignment, return, expression statement, if / elif / while / jumpif conditions, for, function body, included file) x '
+                          'execute_script / evaluate_expression (builtins on / off) x debug True/False/absent x logFn supplied/absent x globals dict / OrderedDict / '
+                          'defaultdict; every library function with a host value as first / second argument. Host objects cannot be sent to the Lean model '
+                          '(HostPy values are BareScript values): implementation-side oracle from the property statement and the documented operator table - no '
+                          'host exception escapes, the statements after it run, the result of every operator (arithmetic, comparison, unary) is a BareScript value. non-trivial = the host value reached an operator or a call')
+    rng = ctx.rng(name)
+    for case in hv_cases(ctx, rng, n_random, sorted(mods['library'].SCRIPT_FUNCTIONS)):
+        bad = hostval_failures(mods, case)
+        st.case(case, nontrivial=True, tags=['hv-' + case['hv'][0], 'form-' + case['form'], 'op-' + str(case.get('op'))[:12] if case['form'] != 'lib' else 'op-lib',
+                                             'access-' + case['access'], 'site-' + case.get('site', 'expr'), cfg_tag(case['config']), 'g-' + case.get('gkind', 'dict')])
+        for oracle, want, got in bad:
+            ctx.witness(oracle, case, want, got)
+
+
+# ---------------------------------------------------------------------------------------------------------------------
+# stream host-reentry: a host function that calls back into the runtime while a script is running - with the SAME options
+# object it was handed (the natural way to write "run this snippet in the caller's environment"), a copy, a fresh dict
+# sharing the globals, {} or None; execute_script / evaluate_expression / calling a script function of the running script;
+# 1..3 levels deep.  Whatever the nested run does, the outer run has to carry on: the statements after the call run
+# (1 .. 1000 of them, of every statement kind), nothing but a documented exception escapes, and the outcome is that of the
+# twin whose host function answers the same value without re-entering.
+# ---------------------------------------------------------------------------------------------------------------------
+
+RE_RT = '<runtime error>'
+RE_SNIPPETS = {      # id -> (text, what the run answers, options modes that can run it, None = all)
+    'sum': ('return 2 + 3', 5, None),
+    'empty': ('', None, None),
+    'noreturn': ('n_c = 1', None, None),
+    'multi': ('n_a = 1\nn_b = n_a + 2\nreturn n_b', 3, None),
+    'fail': ('n_d = arrayGet(null, 1)\nn_e = 1 / 0\nreturn 7', 7, None),
+    'fn': ('function n_f(aa):\n    return aa * 2\nendfunction\nreturn n_f(4)', 8, None),
+    'loop': ('n_i = 0\nwhile n_i < 5:\n    n_i = n_i + 1\nendwhile\nreturn n_i', 5, None),
+    'jump': ('jump n_l\nn_j = 1\nn_l:\nreturn 9', 9, None),
+    'inc': ("include 'nlib.bare'\nreturn n_lib", 11, ('same', 'copy', 'carry')),
+    'outer': ('return outerV + 1', 11, ('same', 'copy', 'fresh', 'carry')),
+    'callouter': ('return outerFn(21)', 42, ('same', 'copy', 'fresh', 'carry')),
+    'rt': ('n_g = 1\nreturn nosuchFunction(1)', RE_RT, None),
+    'limit': ('while true:\nendwhile', RE_RT, ('same', 'copy', 'carry')),
+    'badinc': ("include 'missing.bare'", RE_RT, None),
+}
+RE_SHARING = ('same', 'copy', 'carry', 'fresh')
+RE_EXPRS = {'x-sum': ('2 + 3', 5, None), 'x-fail': ('arrayGet(null, 1) || 7', 7, RE_SHARING), 'x-outer': ('outerV + 1', 11, ('same', 'copy', 'fresh', 'carry')),
+            'x-rt': ('nosuchFunction(1)', RE_RT, None), 'x-call': ('outerFn(21)', 42, ('same', 'copy'))}
+RE_MODES = ['same', 'copy', 'carry', 'fresh', 'empty', 'none']
+RE_PRE = 'function outerFn(aa):\n    return aa * 2\nendfunction\nouterV = 10\n'
+RE_FILES = {'nlib.bare': 'n_lib = 11\n', 'tail.bare': 'tt = tt + 1\n'}
+RE_TAIL_KINDS = ['assign', 'call', 'jump', 'if', 'fn', 'for', 'inc', 'fail', 'while']
+
+
+def re_options(mode, options):
+    if mode == 'same':
+        return options
+    if mode == 'copy':
+        return dict(options)
+    if mode == 'carry':                         # a new dict with the members a host knows about
+        return {k: options[k] for k in ('globals', 'logFn', 'debug', 'fetchFn', 'maxStatements', 'urlFn') if k in options}
+    if mode == 'fresh':
+        return {'globals': options.get('globals'), 'maxStatements': 2000}
+    if mode == 'empty':
+        return {'maxStatements': 2000}
+    return None
+
+
+def re_snippet(case):
+    if case['api'] == 'exec' and case['snippet'].startswith('k'):          # a snippet of k statements
+        k = int(case['snippet'][1:])
+        return '\n'.join(f'n_k = {i}' for i in range(k)) + ('\n' if k else '') + 'return 4', 4, None
+    return (RE_EXPRS if case['api'] == 'eval' else RE_SNIPPETS)[case['snippet']] if case['api'] != 'callfn' else (None, 8, ('same', 'copy'))
+
+
+def make_reentry(mods, case, variant):
+    runtime = mods['runtime']
+    text, answer, _ = re_snippet(case)
+    mode, api = case['mode'], case['api']
+
+    def hostRun(args, options):                 # pylint: disable=invalid-name
+        level = int(args[0]) if len(args) == 1 and type(args[0]) is float and 0 < args[0] <= case.get('depth', 0) else 0
+        if variant == 'twin':
+            if answer == RE_RT:
+                raise runtime.BareScriptRuntimeError('twin runtime error')
+            return float(answer) if isinstance(answer, int) else answer
+        opts = re_options(mode, options)
+        if level > 0:
+            return runtime.execute_script(parsed(mods, f'n_v = hostRun({level - 1})\nreturn n_v'), opts)
+        if api == 'exec':
+            return runtime.execute_script(parsed(mods, text), opts)
+        if api == 'eval':
+            return runtime.evaluate_expression(parsed(mods, text, True), opts)
+        return options['globals']['outerFn']([4.0], opts)
+    return hostRun
+
+
+def re_tail(k, kinds):
+    lines = ['tt = 0']
+    for i in range(k):
+        kind = kinds[i % len(kinds)]
+        if kind == 'assign':
+            lines.append('tt = tt + 1')
+        elif kind == 'call':
+            lines.append('tt = mathMax(tt + 1, 0)')
+        elif kind == 'jump':
+            lines += [f'jumpif (tt < 0) tl{i}', 'tt = tt + 1', f'tl{i}:']
+        elif kind == 'if':
+            lines += ['if tt >= 0:', '    tt = tt + 1', 'endif']
+        elif kind == 'fn':
+            lines += [f'function tf{i}(aa):', '    return aa + 1', 'endfunction', f'tt = tf{i}(tt)']
+        elif kind == 'for':
+            lines += ['for tv in arrayNew(1):', '    tt = tt + tv', 'endfor']
+        elif kind == 'inc':
+            lines.append("include 'tail.bare'")
+        elif kind == 'while':
+            lines += [f'tw{i} = 0', f'while tw{i} < 1:', f'    tw{i} = tw{i} + 1', '    tt = tt + 1', 'endwhile']
+        else:
+            lines += ['tu = arrayGet(null, 0)', 'tt = tt + 1']
+    lines.append("systemLog('tail ' + tt)")
+    return lines
+
+
+def re_text(case):
+    pos = HF_POS_BY_ID[case['pos']]
+    call = f"hostRun({case.get('depth', 0)})"
+    sub = lambda s: s.replace('@C@', call).replace('@F@', 'hostRun')      # noqa: E731
+    if pos.get('expr'):
+        return sub(pos['body']), dict(RE_FILES)
+    files = dict(RE_FILES)
+    files.update({k: sub(v) for k, v in pos.get('files', {}).items()})
+    if case.get('tail') == 'last':              # the call is the last thing the script does
+        return RE_PRE + 'return ' + call + '\n', files
+    text = RE_PRE + "systemLog('before')\n" + sub(pos['body']) + '\n' + '\n'.join(re_tail(case.get('tail', 1), case.get('kinds', ['assign']))) + \
+        "\nsystemLog('after')\nreturn 'done'\n"
+    return text, files
+
+
+def re_run(mods, case, variant):
+    """-> [(outcome, log, user globals)] of the runs on the same options"""
+    lib = mods['library'].SCRIPT_FUNCTIONS
+    pos = HF_POS_BY_ID[case['pos']]
+    text, files = re_text(case)
+    log = []
+    g = {'hostRun': make_reentry(mods, case, variant)}
+    if pos.get('expr'):
+        g.update(lib)
+        g['outerV'] = 10
+        g['outerFn'] = lambda args, options: args[0] * 2
+    # 'nomax': the outer options carry no maxStatements member (fixed scripts that terminate, as in the corpus configurations)
+    more = {} if case.get('nomax') else {'maxStatements': case.get('max', 60000)}
+    options = make_options(case['config'], log, g, files=files, **more)
+    model = parsed(mods, text, bool(pos.get('expr')))
+    res = []
+    for _ in range(int(case.get('runs', 1))):
+        del log[:]
+        out = run_model(mods, model, options, bool(pos.get('expr')), None, bool(case.get('builtins', True)))
+        res.append((out, list(log), {k: v for k, v in user_globals(g, lib).items() if not k.startswith('n_')}))
+    return res
+
+
+def reentry_failures(mods, case):
+    lib = mods['library'].SCRIPT_FUNCTIONS
+    real = re_run(mods, case, 'real')
+    esc = next((r[0] for r in real if r[0][0] == 'escape'), None)
+    if esc is not None:
+        return [('reentry-escape', 'a value or BareScriptRuntimeError/BareScriptParserError: the outer run carries on after the nested run', list(esc))]
+    twin = re_run(mods, case, 'twin')
+    bad = []
+    for ix, ((out, log, g), (t_out, t_log, t_g)) in enumerate(zip(real, twin)):
+        if t_out[0] == 'escape':
+            continue
+        a = [out[0]] + ([deep(out[1], lib)] if out[0] == 'ok' else [])
+        b = [t_out[0]] + ([deep(t_out[1], lib)] if t_out[0] == 'ok' else [])
+        if a != b:
+            bad.append(('reentry-changes-outcome', b + [ix], a + ([str(out[1])[:160]] if out[0] != 'ok' else [])))
+        elif g != t_g:
+            keys = sorted(k for k in set(g) | set(t_g) if g.get(k) != t_g.get(k))
+            bad.append(('reentry-changes-globals', {k: t_g.get(k) for k in keys[:6]}, {k: g.get(k) for k in keys[:6]}))
+        elif case['config']['logFn'] and visible(log, False) != visible(t_log, False):
+            bad.append(('execution-continues', visible(t_log, False)[-4:], visible(log, False)[-4:]))
+        if bad:
+            break
+    return bad
+
+
+def re_cases(ctx, rng, n_random):
+    cases = []
+    cfgs = [REF_ON, REF_OFF] + EXTRA_CONFIGS
+
+    def allowed(api, snippet, mode):
+        modes = (RE_EXPRS if api == 'eval' else RE_SNIPPETS).get(snippet, (None, None, None))[2] if api != 'callfn' else ('same', 'copy')
+        return modes is None or mode in modes
+
+    def add(**kw):
+        kw.setdefault('config', cfgs[len(cases) % len(cfgs)])
+        kw.setdefault('pos', 'assign')
+        if kw.get('snippet') == 'limit':
+            kw['max'] = 300
+            kw['tail'] = min(kw.get('tail', 1), 16) if kw.get('tail') != 'last' else 'last'
+        if allowed(kw['api'], kw.get('snippet'), kw['mode']) and (kw.get('depth', 0) == 0 or kw['mode'] in RE_SHARING):
+            cases.append(dict({'kind': 'reentry'}, **kw))
+    # every way of re-entering x every options mode x every snippet, one and two statements after the call, and as the last thing
+    for mode in RE_MODES:
+        for snippet in RE_SNIPPETS:
+            for tail in (1, 2, 'last'):
+                add(api='exec', mode=mode, snippet=snippet, tail=tail)
+        for snippet in RE_EXPRS:
+            add(api='eval', mode=mode, snippet=snippet, tail=1)
+        add(api='callfn', mode=mode, snippet=None, tail=1)
+        for snippet in ('sum', 'multi', 'fn', 'empty', 'fail'):         # the optional members of the OUTER options absent
+            add(api='exec', mode=mode, snippet=snippet, tail=2, nomax=True, kinds=['assign', 'jump'])
+        add(api='eval', mode=mode, snippet='x-sum', tail=2, nomax=True)
+    # the scale axes: statements after the call (every statement kind), statements of the nested run, nesting depth, runs on the same options
+    sizes = SIZES if not ctx.quick else [s for s in SIZES if s <= 129] + [rng.choice([256, 1000])]
+    for k in sizes:
+        for mode in ('same', 'copy'):
+            add(api='exec', mode=mode, snippet='sum', tail=k, kinds=RE_TAIL_KINDS)
+            add(api='exec', mode=mode, snippet=f'k{k}', tail=1)
+    for kind in RE_TAIL_KINDS:
+        add(api='exec', mode='same', snippet='multi', tail=3, kinds=[kind])
+    for depth in (1, 2, 3, 9):
+        for mode in RE_SHARING:
+            add(api='exec', mode=mode, snippet='sum', tail=2, depth=depth, kinds=['assign', 'jump'])
+    for runs in (2, 3):
+        for mode in RE_MODES:
+            add(api='exec', mode=mode, snippet='multi', tail=2, runs=runs)
+    # every position of the call
+    for pix, pos in enumerate(HF_POS):
+        for mode in ('same', RE_MODES[1 + pix % 5]):
+            add(api='exec', mode=mode, snippet='sum', pos=pos['id'], tail=2, kinds=['assign', 'fn'])
+    for _ in range(n_random):
+        api = rng.choice(['exec', 'exec', 'exec', 'eval', 'callfn'])
+        kw = {'api': api, 'mode': rng.choice(RE_MODES[:3] if rng.random() < 0.6 else RE_MODES), 'pos': rng.choice(HF_POS)['id'], 'config': rng.choice(cfgs),
+              'snippet': rng.choice(list(RE_SNIPPETS)) if api == 'exec' else rng.choice(list(RE_EXPRS)) if api == 'eval' else None,
+              'tail': rng.choice([0, 1, 1, 2, 3, 9, 17, 'last']), 'kinds': [rng.choice(RE_TAIL_KINDS) for _ in range(3)]}
+        if rng.random() < 0.25:
+            kw['depth'] = rng.choice([1, 2, 3])
+        if rng.random() < 0.25:
+            kw['runs'] = rng.choice([2, 3])
+        if rng.random() < 0.2 and kw['snippet'] in ('sum', 'multi', 'fn', 'empty', 'fail', 'noreturn', 'jump', 'x-sum', None):
+            kw['nomax'] = True
+        if HF_POS_BY_ID[kw['pos']].get('expr'):
+            kw['builtins'] = rng.random() < 0.5
+        add(**kw)
+    return cases
+
+
+def stream_host_reentry(ctx, mods, n_random, name='host-reentry'):
+    st = ctx.stream(name, 'host functions that call BACK into the runtime while a script runs: execute_script / evaluate_expression / a script function of the '
+                          f'running script, handed the SAME options object, a copy, a new dict carrying the known members, a fresh dict sharing the globals, {{}} or None; '
+                          f'{len(RE_SNIPPETS)} nested scripts (empty, without return, several statements, contained failures, function definition and call, loops, jumps, '
+                          f'an include, reading / calling the outer globals, ending in a runtime error, exceeding maxStatements, a bad include) and nested scripts of {SIZES} '
+                          f'statements; 1-3-9 levels of re-entry; the call at each of the {len(HF_POS)} positions of stream host-failure; followed by {SIZES} further '
+                          f'statements of the outer script built from {len(RE_TAIL_KINDS)} statement kinds (assignment, library call, jump / label, if, function definition + '
+                          'call, for, include, contained failure, while) or nothing (the call is the final return); 1-3 runs on the same options x debug True/False/absent x '
+                          'logFn supplied/absent x maxStatements supplied/absent. A host callback cannot be sent to the Lean model: implementation-side oracle - nothing but a documented exception escapes '
+                          'the outer run, and outcome, globals and own log lines equal those of the twin run whose host function answers the same value (or raises the '
+                          'same BareScriptRuntimeError) without re-entering. non-trivial = the nested run took place and the outer run carried on')
+    rng = ctx.rng(name)
+    for case in re_cases(ctx, rng, n_random):
+        bad = reentry_failures(mods, case)
+        st.case(case, nontrivial=not bad, tags=['api-' + case['api'], 'mode-' + case['mode'], 'snip-' + str(case.get('snippet'))[:8], 'pos-' + case['pos'],
+                                                'tail-' + str(case.get('tail')), 'depth-' + str(case.get('depth', 0)), 'runs-' + str(case.get('runs', 1)),
+                                                cfg_tag(case['config']) + ('/nomax' if case.get('nomax') else '')])
+        for oracle, want, got in bad:
+            ctx.witness(oracle, case, want, got)
+
+
+# ---------------------------------------------------------------------------------------------------------------------
+# stream script-shapes: "executing ANY parsed script".  Every optional member of the script model absent / present in every
+# combination the parser produces: function statements (async?, args?, lastArgArray? - `function f(...):` has the flag and
+# no args -, 0 .. 256 parameters, duplicate names, empty body) defined and never called / called with fewer, as many, more
+# arguments; return / jump without an expression, labels at the end, empty blocks and loops, empty scripts and files.
+# ---------------------------------------------------------------------------------------------------------------------
+
+SHAPE_RESTS = [None, 'tight', 'spaced', 'wide']
+SHAPE_BODIES = ['empty', 'const', 'noexpr', 'first', 'last', 'count', 'local', 'failing', 'nested']
+SHAPE_DEFSITES = ['top', 'inc', 'twice', 'late', 'block', 'infile-called']
+SHAPE_SCRIPTS = [      # (text, files, how it ends)
+    ('', None, 'null'), ('# only a comment\n', None, 'null'), ('\n\n   \n', None, 'null'), ('return', None, 'null'), ('return\nrr = 1', None, 'null'),
+    ('labA:', None, 'null'), ('jump labA\nlabA:', None, 'null'), ('labA:\nlabB:\njump labC\nrr = 1\nlabC:', None, 'null'),
+    ('jumpif (1) labA\nrr = 1\nlabA:', None, 'null'), ('jumpif (null) labA\nrr = 1\nlabA:', None, 'null'), ('jump labA\nlabA:\nlabA:', None, 'null'),
+    ('if true:\nendif', None, 'null'), ('if false:\nelif false:\nelif true:\nelse:\nendif', None, 'null'), ('if null:\nelse:\nendif', None, 'null'),
+    ('while false:\nendwhile', None, 'null'), ('ii = 0\nwhile ii < 3:\n    ii = ii + 1\nendwhile', None, 'null'),
+    ('while true:\n    break\nendwhile', None, 'null'), ('for vv in arrayNew():\nendfor', None, 'null'), ('for vv, ii in arrayNew(1, 2):\nendfor', None, 'null'),
+    ('for vv in arrayNew(1, 2):\n    continue\nendfor', None, 'null'),
+    ('for vv in arrayNew(1, 2):\n    break\nendfor', None, 'null'), ('for vv in arrayNew(1):\n    for ww in arrayNew():\n    endfor\nendfor', None, 'null'),
+    ('function ff():\nendfunction', None, 'null'), ('function ff():\nendfunction\nreturn ff()', None, 'null'), ('async function ff():\n    return\nendfunction\nreturn ff(1)', None, 'null'),
+    ('function ff():\n    jump done\n    done:\nendfunction\nreturn ff()', None, 'null'), ('function ff():\n    lab:\nendfunction\nff()', None, 'null'),
+    ("include 'empty.bare'", {'empty.bare': ''}, 'null'), ("include 'c.bare'", {'c.bare': '# nothing\n\n'}, 'null'), ("include 'r.bare'\nreturn 5", {'r.bare': 'return\n'}, 'five'),
+    ("include 'a.bare'\ninclude 'a.bare'", {'a.bare': 'aa = 1\n'}, 'null'), ("include <a.bare>", {'*a.bare': 'aa = 1\n'}, 'null'),
+    ("include <a.bare>\ninclude 'a.bare'\ninclude <a.bare>", {'*a.bare': 'function af(...):\nendfunction\n'}, 'null'),
+    ('rr = 1 + \\\n    2', None, 'null'), ('rr = 1\r\nreturn\r\n', None, 'null'), ('1', None, 'null'), ('null', None, 'null'), ('arrayNew()', None, 'null'),
+    ('ff = 1\nfunction ff(...):\nendfunction\nff()', None, 'null'), ('function ff(...):\nendfunction\nff = 1\nreturn ff', None, 'any'),
+    ('function arrayLength(...):\n    return 3\nendfunction\nreturn arrayLength()', None, 'any'),
+    ('function ff( ... ):\n    return 1 / 0\nendfunction', None, 'null'), ('function ff(...):\n    function gg(...):\n', None, 'parse'),
+]
+
+
+def shape_fn_spec_text(spec):
+    """-> (main text, files, ends_rt, number of contained failures of one run)"""
+    n = spec['params']
+    params = ['pa'] * n if spec.get('dup') else [f'p{i}' for i in range(n)]
+    rest = spec.get('rest')
+    head = ', '.join(params)
+    if rest:
+        head += {'tight': '...', 'spaced': ' ...', 'wide': '  ...  '}[rest]
+        if not params and rest == 'spaced':
+            head = ' ... '
+    body = spec['body']
+    lines = {'empty': [], 'const': ['return 7'], 'noexpr': ['return'], 'first': ['return ' + (params[0] if params else 'null')],
+             'last': ['return ' + (params[-1] if params else 'null')], 'count': ['return arrayLength(' + (params[-1] if params and rest else 'arrayNew()') + ')'],
+             'local': ['zz = 1', 'return zz + 1'], 'failing': ['zz = arrayGet(null, 0)', 'return 7'],
+             'nested': ['if true:', '    for zz in arrayNew(1):', '        return 7', '    endfor', 'endif']}[body]
+    defn = [('async ' if spec.get('async') else '') + f'function sfn({head}):'] + ['    ' + ln for ln in lines] + ['endfunction']
+    call = spec.get('call')
+    calls = [] if call is None else ['rr = sfn(' + ', '.join(str(i + 1) for i in range(call)) + ')', 'r2 = sfn(' + ', '.join(str(i + 1) for i in range(call)) + ')']
+    site = spec.get('site', 'top')
+    files = None
+    fails = (2 if call is not None else 0) if body == 'failing' else 0
+    ends_rt = False
+    if site == 'inc':
+        files = {'fn.bare': '\n'.join(defn) + '\n'}
+        main = ["include 'fn.bare'"] + calls
+    elif site == 'infile-called':                   # defined AND called while the include is running
+        files = {'fn.bare': '\n'.join(defn + calls) + '\n'}
+        main = ["include 'fn.bare'"]
+    elif site == 'twice':
+        main = defn + calls + defn + calls
+        fails *= 2
+    elif site == 'late':
+        main = calls + defn
+        ends_rt = call is not None
+    elif site == 'block':
+        main = ['if true:'] + ['    ' + ln for ln in defn] + ['endif'] + calls
+    else:
+        main = defn + calls
+    text = "systemLog('before')\n" + '\n'.join(main) + "\nsystemLog('END')\nreturn 'done'\n"
+    return text, files, ends_rt, fails
+
+
+def shape_failures(mods, case):
+    """-> [(oracle, expected, actual)]"""
+    cfg = case['config']
+    if 'fn' in case:
+        text, files, ends_rt, fails = shape_fn_spec_text(case['fn'])
+        ends = 'rt' if ends_rt else 'done'
+    else:
+        text, files, ends = case['text'], case.get('files'), case['ends']
+        fails = 0
+    log = []
+    options = make_options(cfg, log, {}, files=files or {}, maxStatements=5000, systemPrefix='sys/')
+    try:
+        model = mods['parser'].parse_script(text)
+    except mods['parser'].BareScriptParserError:
+        return [] if ends == 'parse' else [('shape-does-not-parse', 'a legal script', text[:200])]
+    if ends == 'parse':
+        return []
+    out = run_model(mods, model, options)
+    if out[0] == 'escape':
+        return [('script-escape', 'result or BareScriptRuntimeError/BareScriptParserError', list(out))]
+    bad = []
+    if ends == 'rt':
+        if out[0] != 'rt':
+            bad.append(('documented-exception-expected', 'rt', list(out[:1]) + [str(out[1])[:160]]))
+        return bad
+    want = {'done': 'done', 'null': None, 'five': 5}.get(ends, '<any>')
+    if out[0] != 'ok' or (want != '<any>' and out[1] != want):
+        bad.append(('execution-continues', ['ok', want], [out[0], safe_repr(out[1])]))
+    elif ends == 'done' and cfg['logFn'] and log[-1:] != ['END']:
+        bad.append(('execution-continues', 'END', log[-3:]))
+    nfl = len(fail_lines(log))
+    if nfl != (fails if cfg_logs(cfg) else 0):
+        bad.append(('spurious-failure-log' if nfl > fails else 'failure-log-once', fails if cfg_logs(cfg) else 0, fail_lines(log)[:4]))
+    return bad
+
+
+def shape_cases(ctx, rng, n_random):
+    cases = []
+    cfgs = [REF_ON, REF_OFF] + EXTRA_CONFIGS
+    for text, files, ends in SHAPE_SCRIPTS:
+        for cfg in (cfgs if not ctx.quick else [REF_ON, cfgs[len(cases) % len(cfgs)]]):
+            cases.append({'kind': 'shape', 'text': text, 'files': files, 'ends': ends, 'config': cfg})
+
+    def add(cfg=None, **fn):
+        cases.append({'kind': 'shape', 'fn': fn, 'config': cfg or cfgs[len(cases) % len(cfgs)]})
+    # every combination of the optional members of a function statement x body x defined where x called or not
+    for is_async in (False, True):
+        for params in (0, 1, 2):
+            for rest in SHAPE_RESTS:
+                for body in SHAPE_BODIES:
+                    for call in (None, 0, 1, 3):
+                        add(params=params, rest=rest, body=body, call=call, **({'async': True} if is_async else {}))
+                for site in SHAPE_DEFSITES:
+                    for call in (None, 2):
+                        add(params=params, rest=rest, body='first', call=call, site=site, **({'async': True} if is_async else {}))
+    # the scale axes: number of parameters x number of call arguments
+    sizes = [s for s in SIZES if s <= 256]
+    for n in sizes:
+        for rest in (None, 'tight'):
+            add(params=n, rest=rest, body='last', call=rng.choice(sizes))
+            add(params=rng.choice([0, 1, 2]), rest=rest, body='count', call=n)
+    add(params=2, dup=True, body='first', call=2)
+    add(params=3, dup=True, rest='tight', body='last', call=5)
+    for _ in range(n_random):
+        fn = {'params': rng.choice([0, 0, 1, 2, 3, 9, 17]), 'rest': rng.choice(SHAPE_RESTS), 'body': rng.choice(SHAPE_BODIES),
+              'call': rng.choice([None, 0, 1, 2, 3, 10, 65]), 'site': rng.choice(SHAPE_DEFSITES)}
+        if rng.random() < 0.3:
+            fn['async'] = True
+        if rng.random() < 0.1 and fn['params'] > 1:
+            fn['dup'] = True
+        add(cfg=rng.choice(cfgs), **fn)
+    return cases
+
+
+def model_shapes(node, acc):
+    """the member-name combinations of every node of a script / expression model"""
+    if isinstance(node, dict):
+        for key, val in node.items():
+            if isinstance(val, dict) and key in ('function', 'jump', 'return', 'expr', 'include'):
+                acc.add(key + ':' + '+'.join(sorted(val)))
+            model_shapes(val, acc)
+    elif isinstance(node, list):
+        for item in node:
+            model_shapes(item, acc)
+
+
+def stream_script_shapes(ctx, mods, n_random, name='script-shapes'):
+    st = ctx.stream(name, '"any parsed script": every combination of the OPTIONAL members of the script model that the parser produces - function statements with / '
+                          'without async, args, lastArgArray (`function f(...):` and `function f( ... ):` carry the flag and no args), 0 / 1 / 2 and '
+                          f'{[s for s in SIZES if s <= 256]} parameters, duplicate parameter names, {len(SHAPE_BODIES)} bodies (empty, bare return, a parameter, the rest array, '
+                          'a local, a contained failure, return from nested blocks), defined at top level / in an included file / twice / after the call / inside a block / '
+                          'defined and called while the include runs, never called or called with 0 .. 256 arguments (fewer, as many, more than parameters); '
+                          f'{len(SHAPE_SCRIPTS)} degenerate scripts (empty, comments only, return / jump without expression, labels at the end and doubled, empty if / elif / '
+                          'else / while / for bodies, break / continue, empty and comment-only included files, system includes, return inside an include, line '
+                          'continuation, CRLF, expression statements without a name, a function shadowing a variable / a library function) x debug True/False/absent x '
+                          'logFn supplied/absent. Implementation-side oracle: no host exception escapes (also from a function statement that is only EXECUTED, never '
+                          'called), the run reaches its end, exactly the constructed failures are reported. The member combinations met are tagged. non-trivial = all')
+    rng = ctx.rng(name)
+    seen = set()
+    for case in shape_cases(ctx, rng, n_random):
+        bad = shape_failures(mods, case)
+        if 'fn' in case:
+            fn = case['fn']
+            text = shape_fn_spec_text(fn)[0]
+            tags = ['fn', 'params-' + str(fn['params']), 'rest-' + str(fn.get('rest')), 'body-' + fn['body'], 'call-' + str(fn.get('call')), 'site-' + fn.get('site', 'top')]
+        else:
+            text = case['text']
+            tags = ['script', 'ends-' + case['ends']]
+        try:
+            model_shapes(parsed(mods, text), seen)
+        except mods['parser'].BareScriptParserError:
+            pass
+        st.case(case, nontrivial=True, tags=tags + [cfg_tag(case['config'])])
+        for oracle, want, got in bad:
+            ctx.witness(oracle, case, want, got)
+    for shape in sorted(seen):
+        st.hist['model-' + shape] = st.hist.get('model-' + shape, 0) + 1
+
+
+# ---------------------------------------------------------------------------------------------------------------------
+# stream layered-errors: the same failing statement under every STACK of run-time layers - included files (0 .. 64 deep),
+# script functions, functions of an included file called after the include, sort / data-expression callbacks, partials,
+# blocks and loops, a host function that re-enters the runtime.  A documented exception raised at the bottom has to arrive
+# at the top as a documented exception whatever it passes through (every layer that catches and re-raises is a place
+# where a host exception can be born); a contained failure has to stay contained.
+# ---------------------------------------------------------------------------------------------------------------------
+
+LAY_ROWS = "arrayNew(objectNew('a', 1), objectNew('a', 2))"
+LAY_CORES = {      # id -> (statement lines, 'parser' | 'rt' | 'ok', contained failures)
+    'filter-syntax': ([f"rr = dataFilter({LAY_ROWS}, 'a >')"], 'parser', 0),
+    'calc-syntax': ([f"rr = dataCalculatedField({LAY_ROWS}, 'b', 'a *')"], 'parser', 0),
+    'join-syntax': ([f"rr = dataJoin({LAY_ROWS}, {LAY_ROWS}, 'a +')"], 'parser', 0),
+    'join-right-syntax': ([f"rr = dataJoin({LAY_ROWS}, {LAY_ROWS}, 'a', '(a')"], 'parser', 0),
+    'filter-empty': ([f"rr = dataFilter({LAY_ROWS}, '')"], 'parser', 0),
+    'bad-include': (["include 'broken.bare'"], 'parser', 0),
+    'bad-include-2': (["include 'outer2.bare'"], 'parser', 0),
+    'host-parser': (['rr = hostParserError()'], 'parser', 0),
+    'host-parser-prefix': (["rr = hostParserError('with prefix')"], 'parser', 0),
+    'undefined': (['rr = nosuchFunction(1)'], 'rt', 0),
+    'filter-undefined': ([f"rr = dataFilter({LAY_ROWS}, 'nosuch(a)')"], 'rt', 0),
+    'jump': (['jump nowhere'], 'rt', 0),
+    'missing-include': (["include 'missing.bare'"], 'rt', 0),
+    'limit': (['while true:', 'endwhile'], 'rt', 0),
+    'host-rt': (['rr = hostRuntimeError()'], 'rt', 0),
+    'div0': (['rr = 1 / 0', 'rs = 10 ** 1000'], 'ok', 0),
+    'args': (['rr = arrayGet(null, 1)'], 'ok', 1),
+    'host-boom': (['rr = hostBoom()'], 'ok', 1),
+    'filter-args': (["rr = dataFilter(null, 'a >')"], 'ok', 1),
+    'filter-div0': ([f"rr = dataFilter({LAY_ROWS}, 'a / 0 == null')"], 'ok', 0),
+}
+LAY_LAYERS = ['inc', 'incdir', 'fn', 'incfn', 'sortcb', 'datacb', 'partial', 'if', 'while', 'for', 'hostre', 'hostcopy']
+LAY_FILES = {'*broken.bare': 'aa = (1 +\n', '*outer2.bare': "include 'broken.bare'\n"}
+
+
+def lay_build(core, layers):
+    """-> (main text, files, snippets of the re-entering host function)"""
+    body = list(LAY_CORES[core][0])
+    defs = []
+    files = dict(LAY_FILES)
+    snippets = {}
+    ind = lambda lines: ['    ' + ln for ln in lines]                    # noqa: E731
+    for n, layer in enumerate(layers):
+        if layer in ('inc', 'incdir'):
+            url = f'l{n}.bare' if layer == 'inc' else f'd{n}/l{n}.bare'
+            files['*' + url] = '\n'.join(defs + body) + '\n'
+            defs, body = [], [f"include '{url}'"]
+        elif layer == 'incfn':
+            files[f'*f{n}.bare'] = '\n'.join(defs + [f'function w{n}():'] + ind(body) + ['endfunction']) + '\n'
+            defs, body = [], [f"include 'f{n}.bare'", f'w{n}()']
+        elif layer == 'fn':
+            defs += [f'function w{n}():'] + ind(body) + ['endfunction']
+            body = [f'w{n}()']
+        elif layer == 'sortcb':
+            defs += [f'function w{n}(aa, bb):'] + ind(body) + ['    return 0', 'endfunction']
+            body = [f'arraySort(arrayNew(2, 1), w{n})']
+        elif layer == 'datacb':
+            defs += [f'function w{n}():'] + ind(body) + ['endfunction']
+            body = [f"dataCalculatedField(arrayNew(objectNew('a', 1)), 'b', 'w{n}()')"]
+        elif layer == 'partial':
+            defs += [f'function w{n}(xx):'] + ind(body) + ['endfunction']
+            body = [f'q{n} = systemPartial(w{n}, 1)', f'q{n}()']
+        elif layer == 'if':
+            body = ['if true:'] + ind(body) + ['endif']
+        elif layer == 'while':
+            body = [f'c{n} = 0', f'while c{n} < 1:', f'    c{n} = c{n} + 1'] + ind(body) + ['endwhile']
+        elif layer == 'for':
+            body = [f'for v{n} in arrayNew(1):'] + ind(body) + ['endfor']
+        elif layer in ('hostre', 'hostcopy'):
+            snippets[f's{n}'] = '\n'.join(defs + body) + '\n'
+            defs, body = [], [f"hostExec('s{n}', {'true' if layer == 'hostcopy' else 'false'})"]
+        else:
+            raise ValueError(layer)
+    text = "systemLog('before')\n" + '\n'.join(defs + body) + "\nsystemLog('END')\nreturn 'done'\n"
+    return text, files, snippets
+
+
+def lay_run(mods, case):
+    runtime, parser = mods['runtime'], mods['parser']
+    text, files, snippets = lay_build(case['core'], case['layers'])
+    log = []
+
+    def host_exec(args, options):
+        return runtime.execute_script(parsed(mods, snippets[args[0]]), dict(options) if args[1] else options)
+
+    def host_parser_error(args, options):
+        raise parser.BareScriptParserError('host syntax error', 'some line', 3, 1, *args[:1])
+
+    def host_runtime_error(args, options):
+        raise runtime.BareScriptRuntimeError('host said stop')
+
+    def host_boom(args, options):
+        raise KeyError('boom')
+    g = {'hostExec': host_exec, 'hostParserError': host_parser_error, 'hostRuntimeError': host_runtime_error, 'hostBoom': host_boom}
+    options = make_options(case['config'], log, g, files=files, maxStatements=case.get('max', 3000))
+    out = run_model(mods, parsed(mods, text), options)
+    return out, log
+
+
+def layered_failures(mods, case):
+    _, kind, fails = LAY_CORES[case['core']]
+    cfg = case['config']
+    out, log = lay_run(mods, case)
+    if out[0] == 'escape':
+        return [('layered-escape', f'{kind}: a documented exception raised below arrives as a documented exception' if kind != 'ok' else 'done', list(out))]
+    bad = []
+    if kind == 'ok':
+        if out != ('ok', 'done') or (cfg['logFn'] and log[-1:] != ['END']):
+            bad.append(('execution-continues', ['ok', 'done', 'END'], [out[0], str(out[1])[:160], log[-2:]]))
+        nfl = len(fail_lines(log))
+        if nfl != (fails if cfg_logs(cfg) else 0):
+            bad.append(('failure-log-once', fails if cfg_logs(cfg) else 0, fail_lines(log)[:4]))
+    elif out[0] not in ('rt', 'parser'):
+        bad.append(('documented-exception-expected', kind, [out[0], str(out[1])[:160]]))
+    return bad
+
+
+def lay_cases(ctx, rng, n_random):
+    cases = []
+    cfgs = [REF_ON, REF_OFF] + EXTRA_CONFIGS
+
+    def add(core, layers, cfg=None):
+        case = {'kind': 'layered', 'core': core, 'layers': list(layers), 'config': cfg or cfgs[len(cases) % len(cfgs)]}
+        if core == 'limit':
+            case['max'] = 400
+        cases.append(case)
+    for core in LAY_CORES:
+        add(core, [])
+        for la in LAY_LAYERS:
+            add(core, [la], REF_ON)
+            add(core, [la])
+        for la in LAY_LAYERS:                   # every ordered pair of layers
+            for lb in (LAY_LAYERS if not ctx.quick else [rng.choice(LAY_LAYERS) for _ in range(3)]):
+                add(core, [la, lb])
+        # the scale axis: include depth
+        for depth in ([s for s in SIZES if 2 <= s <= 65] if not ctx.quick else [2, 3, 9, rng.choice([16, 17, 64, 65])]):
+            add(core, ['inc' if i % 3 else 'incdir' for i in range(depth)])
+    for _ in range(n_random):
+        add(rng.choice(list(LAY_CORES)), [rng.choice(LAY_LAYERS) for _ in range(rng.choice([2, 3, 3, 4, 4, 5, 6]))], rng.choice(cfgs))
+    return cases
+
+
+def stream_layered(ctx, mods, n_random, name='layered-errors'):
+    st = ctx.stream(name, f'{len(LAY_CORES)} failing statements (BareScriptParserError: an expression STRING of dataFilter / dataCalculatedField / dataJoin that does '
+                          'not parse, a broken include one and two files down, a host function raising it with / without prefix; BareScriptRuntimeError: undefined '
+                          'function, also inside a data expression, unknown label, missing include, maxStatements, raised by a host function; contained: arithmetic, '
+                          f'wrong-typed arguments, a failing host function) under every stack of 0-6 run-time layers out of {len(LAY_LAYERS)} (included file, also in a '
+                          'sub-directory; script function; function of an included file called after the include; arraySort comparator; function called from a data '
+                          'expression; partial; if / while / for block; a host function re-entering execute_script with the same options / a copy): every single layer, '
+                          f'every ordered pair, include chains {[s for s in SIZES if 2 <= s <= 65]} deep, random stacks x debug True/False/absent x logFn supplied/absent. '
+                          'Implementation-side oracle (file tables and host functions cannot be sent to the Lean model): a documented exception raised at the bottom '
+                          'comes out as BareScriptRuntimeError / BareScriptParserError - never as a host exception, never swallowed; a contained failure stays '
+                          'contained (END reached, one line per failure iff debug and logFn). non-trivial = all')
+    rng = ctx.rng(name)
+    for case in lay_cases(ctx, rng, n_random):
+        bad = layered_failures(mods, case)
+        st.case(case, nontrivial=True, tags=['core-' + case['core'], 'depth-' + str(len(case['layers']))] + sorted({'layer-' + la for la in case['layers']}) +
+                [cfg_tag(case['config'])])
+        for oracle, want, got in bad:
+            ctx.witness(oracle, case, want, got)
+
+
 # ---------------------------------------------------------------------------------------------------------------------
 # corpus, entry points
 # ---------------------------------------------------------------------------------------------------------------------
@@ -2764,6 +3774,10 @@ def streams(ctx):
     stream_hostile(ctx, mods, ctx.scale(1200, 20000))
     stream_host_failure(ctx, mods, ctx.scale(3000, 60000))
     stream_host_fetch(ctx, mods, ctx.scale(2000, 40000))
+    stream_host_values(ctx, mods, ctx.scale(6000, 100000))
+    stream_host_reentry(ctx, mods, ctx.scale(3000, 40000))
+    stream_script_shapes(ctx, mods, ctx.scale(2000, 30000))
+    stream_layered(ctx, mods, ctx.scale(4000, 60000))
 
 
 def disagreement_known(d, known):
@@ -2778,6 +3792,10 @@ def search(ctx):
         stream_host_fetch(ctx, mods, 4000, name='search-host-fetch')
         stream_deep(ctx, mods, 1500, name='search-deep')
         stream_hostile(ctx, mods, 4000, name='search-hostile')
+        stream_host_values(ctx, mods, 6000, name='search-host-values')
+        stream_host_reentry(ctx, mods, 3000, name='search-host-reentry')
+        stream_script_shapes(ctx, mods, 2000, name='search-script-shapes')
+        stream_layered(ctx, mods, 3000, name='search-layered')
         if not ctx.witnesses:
             stream_text(ctx, mods, len(ADV_LINES) + 3000, name='search-text')
         if ctx.driver is not None and not ctx.witnesses:
@@ -2849,6 +3867,14 @@ def replay(witness):
         return bool(hostfetch_failures(mods, inp))
     if kind == 'hostfetch-cycle':
         return include_cycle_run(mods, inp)[0] == 'escape'
+    if kind == 'hostval':
+        return bool(hostval_failures(mods, inp))
+    if kind == 'reentry':
+        return bool(reentry_failures(mods, inp))
+    if kind == 'shape':
+        return bool(shape_failures(mods, inp))
+    if kind == 'layered':
+        return bool(layered_failures(mods, inp))
     if kind == 'deep':
         res = deep_run(mods, inp['spec'])
         return res is not None and res[0][0] == 'escape'
